@@ -10,7 +10,7 @@ EXTRA_JUDGES = ['Extra']
 RULE = ('random DFAs, NFAs, regexps, grammars, PDAs (incl. a closure limit small enough to truncate), TMs; for each object a list of pure operations (acceptance tests, enumerators, minimisers, products, complement, reverse, '
         'prefix-free / non-extendable restrictions, subset construction, NFA star / union / concatenation with the shared default generator, DFA-to-regexp, Chomsky phases, PDA normal forms and PDA-to-CFG, printers, simulations, '
         'two checkers). Every operation is called with an argument snapshot before and after, a second time, again after a prefix of unrelated library calls, and with logging on; the whole case runs in fresh processes with '
-        '4 (quick) / 16 (thorough) PYTHONHASHSEED values. Relation: snapshots equal; verdicts, enumerations, printed texts and checker verdicts identical across calls and across hash seeds; constructed objects have the same language '
+        '4 (quick) / 8 (thorough) PYTHONHASHSEED values. Relation: snapshots equal; verdicts, enumerations, printed texts and checker verdicts identical across calls and across hash seeds; constructed objects have the same language '
         '(exact oracle for DFA / NFA / regexp results, enumeration up to length 4 for grammar and PDA results). Non-trivial = the object has >= 2 states / rules / nodes; distinct by object.')
 RULE += ' Added after the seeded rounds: sibling objects (same rules / transitions, another start variable / initial state / accepting set) operated on first in every second process; chain DFAs of 5-9 states; PDAs already in push/pop form with one accepting state; grammar utilities (productive variables, removal of unproductive variables / rules A -> A, cfg_to_nfa) with their models (informational).'
 CODES = {9: 'generated object invalid (harness)', 10: 'dfa_accepts_word differs from the model value', 11: 'dfa_words_up_to_n differs from the model value', 12: 'a minimiser result is not language-equivalent',
@@ -27,7 +27,7 @@ SHARD = 40
 
 
 def hashseeds(tier):
-    return [0, 1, 2, 3] if tier == 'quick' else list(range(16))
+    return [0, 1, 2, 3] if tier == 'quick' else list(range(8))
 
 
 def gen(rng, tier):
